@@ -51,6 +51,13 @@ pub fn session_case(rng: &mut Rng, out: &mut Out, cfg: &SessionCfg, prop: &str) 
     let mut nontrivial = false;
     let res = catch_unwind(AssertUnwindSafe(|| {
         for _step in 0..cfg.steps {
+            // sometimes ask for the forced bytes first: the mask is then computed relative to a pending
+            // byte prefix (the text the grammar forces next)
+            if rng.chance(1, 4) {
+                let (r, _) = run_op(&mut m, &Op::FfBytes);
+                ops.push(Op::FfBytes);
+                results.push(r);
+            }
             // mask
             let (r, mask) = run_op(&mut m, &Op::Mask);
             ops.push(Op::Mask);
